@@ -168,6 +168,7 @@ def main(modname, argv):
         print("replay %s: %s -- %s" % (a.replay, "VIOLATES" if bad else "holds", detail))
         return 1 if bad else 0
     t0 = time.time()
+    os.environ["VERIF_TIER_EFFECTIVE"] = a.tier
     items = mod.items(a.tier, seed)
     if a.only:
         items = [i for i in items if a.only in i["name"]]
@@ -186,6 +187,8 @@ def main(modname, argv):
         n_ok += 1
         for k in ("obligations", "discharged", "trivial", "sat", "unknown", "paths", "merges", "forks", "solver_checks", "validated", "witnesses"):
             agg[k] += res.get(k, 0)
+        for k in ("xcheck_agree", "xcheck_undecided"):
+            agg[k] = agg.get(k, 0) + res.get(k, 0)
         agg["solver_s"] += res.get("solver_s", 0.0)
         agg["encoded"].update(res.get("encoded", []))
         for k in ("violations", "mismatches", "notes"):
@@ -242,6 +245,8 @@ def main(modname, argv):
             symbolic_paths=agg["paths"], merges=agg["merges"], forks=agg["forks"],
             solver_feasibility_checks=agg["solver_checks"], solver_time_s=round(agg["solver_s"], 2),
             reachability_witnesses=agg["witnesses"],
+            second_solver=dict(solver="cvc5 1.0.3 (binary) on SMT-LIB2 dumps of every 25th discharged query (thorough tier only)",
+                               agreements=agg.get("xcheck_agree", 0), undecided_within_60s=agg.get("xcheck_undecided", 0)),
             functions_encoded=sorted(agg["encoded"]),
             bounds=mod.bounds(a.tier) if hasattr(mod, "bounds") else "",
             outside_claim=getattr(mod, "OUTSIDE", []),
